@@ -338,7 +338,13 @@ macro_rules! cast_variant {
             $($extra)*
             fn group_move(self: Box<Self>, _how: &str, _req: &str) -> Moved { Moved::Unsupported(self) }
             fn upcast(self: Box<Self>) -> Result<Box<dyn Caps>, Box<dyn Caps>> {
-                Ok(Box::new(HGroup::<$inst, C>(self.0.upcast())))
+                // the two documented ways back: `.upcast()` and the `From` impl of the base group
+                static FLIP: std::sync::atomic::AtomicUsize = std::sync::atomic::AtomicUsize::new(0);
+                if FLIP.fetch_add(1, std::sync::atomic::Ordering::SeqCst) % 2 == 0 {
+                    Ok(Box::new(HGroup::<$inst, C>(self.0.upcast())))
+                } else {
+                    Ok(Box::new(HGroup::<$inst, C>(From::from(self.0))))
+                }
             }
             fn as_caps(self: Box<Self>) -> Box<dyn Caps> { self }
         }
